@@ -1,11 +1,983 @@
-//! Builder exploration shared by C05/C06/C07/C16/C18/C19 (E2: BFS over operation histories).
-//! Filled in step by step; until then the hooks below are no-ops.
+//! Builder exploration shared by C03/C05/C06/C07/C09/C10/C16/C18 (E2: BFS over operation
+//! histories on the real TransactionBuilder, with a plain reference model and the ledger oracle).
+//!
+//! A state is an operation history over a finite alphabet. `replay` applies it to fresh real
+//! sub-builders and to the model; the canonical key is a digest of the Debug rendering of the real
+//! sub-builders plus the model. In every new state the *finish procedure* is run for every
+//! (balancing method x configuration) and, for the random strategies, for every RNG answer within
+//! the deviation bound; the produced transaction is re-parsed by refcbor and judged.
 
+use crate::engine::{bfs, guard, key128, panic_sig, Ctx, Opts};
+use cardano_serialization_lib::verif_hooks;
+use crate::fx::*;
+use crate::ledger::{self, Deposits, FeeParams, PTx, Val};
 use crate::props::BoxedScenario;
+use crate::refcbor;
 use crate::report::{Report, Tier};
+use crate::util::*;
+use cardano_serialization_lib as csl;
+use csl::*;
+use std::cell::Cell;
+use std::collections::{BTreeMap, BTreeSet};
 
-pub fn scenario_for(_prop: &str, _name: &str, _tier: Tier) -> Option<BoxedScenario> {
-    None
+// ---------------------------------------------------------------------------------------------
+// the world: UTxO table, scripts, policies, outputs
+
+#[derive(Clone, Debug, PartialEq)]
+pub enum Owner {
+    Key(usize),
+    Byron(u8),
+    Native(usize),
+    Plutus(usize),
 }
 
-pub fn explore_for(_prop: &str, _tier: Tier, _seed: u64, _rep: &mut Report) {}
+pub struct UtxoSpec {
+    pub owner: Owner,
+    pub base: bool,
+    pub coin: u64,
+    /// (policy index, name index, quantity)
+    pub assets: Vec<(usize, usize, u64)>,
+}
+
+pub struct World {
+    pub native: Vec<NativeScript>,
+    pub plutus: Vec<PlutusScript>,
+    pub policies: Vec<ScriptHash>,
+    pub names: Vec<AssetName>,
+    pub utxos: Vec<(UtxoSpec, TransactionUnspentOutput)>,
+    pub outputs: Vec<TransactionOutput>,
+    pub certs: Vec<CertSpec>,
+    pub change: Address,
+    pub byron_attrs: Vec<u8>,
+    pub datums: Vec<PlutusData>,
+    pub cost_models: Costmdls,
+    pub cost_lists: BTreeMap<u8, Vec<i128>>,
+}
+
+pub const N_OUTPOINTS: usize = 16;
+pub fn op_outpoint(i: usize) -> TransactionInput {
+    // adversarial order: hashes ff.., 00.., 7f.., 80.. with indices that do not sort like the list
+    const T: [(u8, u32); N_OUTPOINTS] = [
+        (0xff, 0), (0x00, 1), (0x00, 0), (0x7f, 65535), (0x80, 256), (0x00, 24), (0x7f, 2), (0xfe, 9), (0x01, 0), (0x80, 1), (0x10, 23), (0xc0, 7), (0x20, 3), (0x30, 4), (0x40, 5), (0x50, 6),
+    ];
+    TransactionInput::new(&txhash(T[i].0), T[i].1)
+}
+pub fn op_outpoint_key(i: usize) -> (Vec<u8>, u64) {
+    let x = op_outpoint(i);
+    (x.transaction_id().to_bytes(), x.index() as u64)
+}
+
+fn mk_value(w: &World, coin: u64, assets: &[(usize, usize, u64)]) -> Value {
+    let mut v = Value::new(&bn(coin));
+    if !assets.is_empty() {
+        let mut ma = MultiAsset::new();
+        for (p, n, q) in assets {
+            ma.set_asset(&w.policies[*p], &w.names[*n], &bn(*q));
+        }
+        v.set_multiasset(&ma);
+    }
+    v
+}
+
+impl World {
+    pub fn new() -> World {
+        let native = vec![native_pubkey(2), {
+            let mut subs = NativeScripts::new();
+            subs.add(&native_pubkey(0));
+            subs.add(&native_pubkey(3));
+            NativeScript::new_script_all(&ScriptAll::new(&subs))
+        }];
+        let plutus = vec![PlutusScript::new(vec![1, 2, 3]), PlutusScript::new_v2(vec![4; 10]), PlutusScript::new_v3(vec![5; 20])];
+        let policies = vec![native[0].hash(), plutus[1].hash(), sh(2)];
+        let names = vec![AssetName::new(vec![]).unwrap(), AssetName::new(b"t".to_vec()).unwrap(), AssetName::new(vec![0x42; 32]).unwrap()];
+        let mut w = World {
+            native,
+            plutus,
+            policies,
+            names,
+            utxos: vec![],
+            outputs: vec![],
+            certs: cert_alphabet(),
+            change: base_addr(3, 1),
+            byron_attrs: vec![0xa0],
+            datums: vec![PlutusData::new_integer(&BigInt::from(7u64)), PlutusData::new_bytes(vec![0xd0; 70]), PlutusData::new_integer(&BigInt::from(7u64))],
+            cost_models: Costmdls::new(),
+            cost_lists: BTreeMap::new(),
+        };
+        for (lang, list) in [(1u8, vec![1i128, 2, 3]), (2, vec![4, 5]), (3, vec![6])] {
+            let mut cm = CostModel::new();
+            for (i, x) in list.iter().enumerate() {
+                cm.set(i, &Int::new_i32(*x as i32)).unwrap();
+            }
+            let l = match lang {
+                1 => Language::new_plutus_v1(),
+                2 => Language::new_plutus_v2(),
+                _ => Language::new_plutus_v3(),
+            };
+            w.cost_models.insert(&l, &cm);
+            w.cost_lists.insert(lang, list);
+        }
+        let specs = vec![
+            UtxoSpec { owner: Owner::Key(0), base: true, coin: 2_000_000, assets: vec![] },
+            UtxoSpec { owner: Owner::Key(1), base: false, coin: 10_000_000, assets: vec![] },
+            UtxoSpec { owner: Owner::Key(0), base: false, coin: 5_000_000_000, assets: vec![] },
+            UtxoSpec { owner: Owner::Key(1), base: false, coin: 3_000_000, assets: vec![(0, 1, 100)] },
+            UtxoSpec { owner: Owner::Key(2), base: true, coin: 6_000_000, assets: vec![(0, 1, 5), (1, 0, 7), (2, 2, 1)] },
+            UtxoSpec { owner: Owner::Byron(0), base: false, coin: 4_000_000, assets: vec![] },
+            UtxoSpec { owner: Owner::Native(0), base: false, coin: 3_000_000, assets: vec![] },
+            UtxoSpec { owner: Owner::Plutus(1), base: false, coin: 4_000_000, assets: vec![] },
+            UtxoSpec { owner: Owner::Plutus(0), base: false, coin: 2_500_000, assets: vec![] },
+            UtxoSpec { owner: Owner::Key(1), base: false, coin: 70_000, assets: vec![] },
+            UtxoSpec { owner: Owner::Native(1), base: false, coin: 3_500_000, assets: vec![] },
+            UtxoSpec { owner: Owner::Plutus(2), base: false, coin: 4_500_000, assets: vec![] },
+        ];
+        for (i, s) in specs.into_iter().enumerate() {
+            let addr = match &s.owner {
+                Owner::Key(k) => {
+                    if s.base {
+                        base_addr(*k, (*k + 1) % 4)
+                    } else {
+                        enterprise_addr(*k)
+                    }
+                }
+                Owner::Byron(b) => byron_addr(*b).to_address(),
+                Owner::Native(n) => EnterpriseAddress::new(1, &Credential::from_scripthash(&w.native[*n].hash())).to_address(),
+                Owner::Plutus(p) => EnterpriseAddress::new(1, &Credential::from_scripthash(&w.plutus[*p].hash())).to_address(),
+            };
+            let out = TransactionOutput::new(&addr, &mk_value(&w, s.coin, &s.assets));
+            let u = TransactionUnspentOutput::new(&op_outpoint(i), &out);
+            w.utxos.push((s, u));
+        }
+        // requested outputs
+        let o0 = TransactionOutput::new(&enterprise_addr(3), &Value::new(&bn(1_000_000)));
+        let o1 = TransactionOutput::new(&base_addr(2, 0), &mk_value(&w, 1_500_000, &[(0, 1, 3)]));
+        let o2 = TransactionOutput::new(&enterprise_addr(3), &Value::new(&bn(4_990_000_000)));
+        let mut o3 = TransactionOutput::new(&base_addr(1, 1), &mk_value(&w, 2_000_000, &[(1, 0, 7)]));
+        o3.set_data_hash(&DataHash::from_bytes(hash32(0xd7)).unwrap());
+        let o4 = TransactionOutput::new(&enterprise_addr(3), &Value::new(&bn(60_000)));
+        w.outputs = vec![o0, o1, o2, o3, o4];
+        w
+    }
+    pub fn utxo_val(&self, i: usize) -> Val {
+        let s = &self.utxos[i].0;
+        let mut v = Val::coin(s.coin);
+        for (p, n, q) in &s.assets {
+            *v.assets.entry((self.policies[*p].to_bytes(), self.names[*n].name())).or_insert(0) += *q as i128;
+        }
+        v
+    }
+    pub fn lookup(&self, op: &(Vec<u8>, u64)) -> Option<usize> {
+        (0..self.utxos.len()).find(|i| &op_outpoint_key(*i) == op)
+    }
+}
+
+thread_local! {
+    pub static WORLD: World = World::new();
+    static RNG_CTX: Cell<*mut Ctx> = Cell::new(std::ptr::null_mut());
+    static RNG_FREE: Cell<bool> = Cell::new(false);
+    static RNG_CALLS: Cell<u32> = Cell::new(0);
+}
+
+/// run `f` with the library's RNG answered by `ctx.choose` (counted deviations unless `free`)
+pub fn with_rng<T>(ctx: &mut Ctx, free: bool, f: impl FnOnce() -> T) -> T {
+    RNG_CTX.with(|c| c.set(ctx as *mut Ctx));
+    RNG_FREE.with(|c| c.set(free));
+    RNG_CALLS.with(|c| c.set(0));
+    verif_hooks::set_rng_callback(Some(Box::new(|n| {
+        RNG_CALLS.with(|c| c.set(c.get() + 1));
+        let p = RNG_CTX.with(|c| c.get());
+        if p.is_null() {
+            return 0;
+        }
+        // single-threaded, re-entrancy free: the pointer is valid for the duration of `f`
+        let ctx: &mut Ctx = unsafe { &mut *p };
+        if RNG_FREE.with(|c| c.get()) {
+            ctx.choose_free(n)
+        } else {
+            ctx.choose(n)
+        }
+    })));
+    let r = f();
+    verif_hooks::set_rng_callback(None);
+    RNG_CTX.with(|c| c.set(std::ptr::null_mut()));
+    r
+}
+pub fn rng_calls() -> u32 {
+    RNG_CALLS.with(|c| c.get())
+}
+
+// ---------------------------------------------------------------------------------------------
+// operations
+
+#[derive(Clone, Copy, Debug, PartialEq, Eq, PartialOrd, Ord, Hash)]
+pub enum Op {
+    /// add UTxO i as an input; variant: 0 = script inline / datum in witness, 1 = script by reference (and inline datum)
+    In(usize, u8),
+    Out(usize),
+    Cert(usize),
+    /// 0: key0 5 ADA, 1: native-script account 1 ADA, 2: key2 2^32 lovelace, 3: plutus-script account
+    Wd(usize),
+    /// 0: +10 (pol0,"t") native, 1: -3 (pol0,"t") native, 2: +1 (pol1,"") plutus, 3: +5 (pol0,"") and -5 ... second name
+    Mint(usize),
+    Proposal(usize),
+    Donate,
+    /// 0: exact 200_000, 1: exact 2_000_000, 2: not-less 100, 3: not-less 900_000
+    Fee(usize),
+    Coll(usize),
+    ReqSigner(usize),
+    /// explicit reference input: 0 = outpoint 13 (no script), 1 = outpoint 14 with a 30_000-byte script, 2 = same outpoint as UTxO 0
+    RefIn(usize),
+    /// 0: DRep key3, 1: CC hot key1, 2: SPO key2, 3: CC hot script (native 0), 4: DRep script plutus
+    Vote(usize),
+    Meta,
+    ExtraDatum(usize),
+}
+
+pub fn op_name(op: &Op) -> String {
+    format!("{:?}", op)
+}
+
+#[derive(Clone, Debug, Default)]
+pub struct Model {
+    pub inputs: Vec<(usize, u8)>,
+    pub outputs: Vec<usize>,
+    pub certs: Vec<usize>,
+    pub wds: Vec<usize>,
+    pub mint: BTreeMap<(usize, usize), i128>,
+    pub proposals: Vec<usize>,
+    pub donation: Option<u64>,
+    pub fee_req: Option<usize>,
+    pub collateral: Vec<usize>,
+    pub req_signers: Vec<usize>,
+    pub ref_inputs: Vec<usize>,
+    pub votes: Vec<usize>,
+    pub meta: bool,
+    pub extra_datums: Vec<usize>,
+}
+
+pub struct St {
+    pub ib: TxInputsBuilder,
+    pub cb: TxInputsBuilder,
+    pub certs: CertificatesBuilder,
+    pub wds: WithdrawalsBuilder,
+    pub mint: MintBuilder,
+    pub votes: VotingBuilder,
+    pub props: VotingProposalBuilder,
+    pub m: Model,
+}
+
+impl St {
+    pub fn new() -> St {
+        St { ib: TxInputsBuilder::new(), cb: TxInputsBuilder::new(), certs: CertificatesBuilder::new(), wds: WithdrawalsBuilder::new(), mint: MintBuilder::new(), votes: VotingBuilder::new(), props: VotingProposalBuilder::new(), m: Model::default() }
+    }
+}
+
+pub const WD_AMOUNT: [u64; 4] = [5_000_000, 1_000_000, 0x1_0000_0000, 1_500_000];
+pub const REF_SCRIPT_OUTPOINT: usize = 12;
+pub const REF_SCRIPT_SIZE: usize = 600;
+
+fn redeemer_for(tag: RedeemerTag, marker: u64) -> Redeemer {
+    // the data names the item the redeemer is attached to (C10); index is a placeholder
+    Redeemer::new(&tag, &bn(999), &PlutusData::new_integer(&BigInt::from(marker)), &ExUnits::new(&bn(1_000 + marker), &bn(2_000_000 + marker)))
+}
+
+fn plutus_lang(w: &World, p: usize) -> Language {
+    w.plutus[p].language_version()
+}
+
+/// witness for a Plutus use of script `p`: variant 0 = script + datum in the witness set,
+/// variant 1 = script by reference input, datum inline (no datum witness)
+fn plutus_witness(w: &World, p: usize, variant: u8, tag: RedeemerTag, marker: u64, datum: Option<usize>) -> PlutusWitness {
+    let red = redeemer_for(tag, marker);
+    if variant == 0 {
+        match datum {
+            Some(d) => PlutusWitness::new(&w.plutus[p], &w.datums[d], &red),
+            None => PlutusWitness::new_without_datum(&w.plutus[p], &red),
+        }
+    } else {
+        let src = PlutusScriptSource::new_ref_input(&w.plutus[p].hash(), &op_outpoint(REF_SCRIPT_OUTPOINT), &plutus_lang(w, p), REF_SCRIPT_SIZE);
+        PlutusWitness::new_with_ref_without_datum(&src, &red)
+    }
+}
+
+/// Apply one operation to the real sub-builders and to the model; false = not applicable here.
+pub fn apply(w: &World, st: &mut St, op: Op) -> bool {
+    match op {
+        Op::In(i, variant) => {
+            if st.m.inputs.iter().any(|x| x.0 == i) || st.m.collateral.contains(&i) && false {
+                return false;
+            }
+            let (spec, u) = &w.utxos[i];
+            let r = match &spec.owner {
+                Owner::Key(_) | Owner::Byron(_) => {
+                    if variant != 0 {
+                        return false;
+                    }
+                    st.ib.add_regular_utxo(u)
+                }
+                Owner::Native(n) => {
+                    let src = if variant == 0 {
+                        NativeScriptSource::new(&w.native[*n])
+                    } else {
+                        // a script used by reference cannot be inspected by the builder: the caller
+                        // declares its signers, as the API documents
+                        let mut s = NativeScriptSource::new_ref_input(&w.native[*n].hash(), &op_outpoint(REF_SCRIPT_OUTPOINT + 1), 40);
+                        let mut ks = Ed25519KeyHashes::new();
+                        for k in crate::ledger::native_script_keys(&w.native[*n].to_bytes()) {
+                            ks.add(&Ed25519KeyHash::from_bytes(k).unwrap());
+                        }
+                        s.set_required_signers(&ks);
+                        s
+                    };
+                    st.ib.add_native_script_utxo(u, &src)
+                }
+                Owner::Plutus(p) => {
+                    let wit = plutus_witness(w, *p, variant, RedeemerTag::new_spend(), 100 + i as u64, Some(i % 3));
+                    st.ib.add_plutus_script_utxo(u, &wit)
+                }
+            };
+            if r.is_err() {
+                return false;
+            }
+            st.m.inputs.push((i, variant));
+            true
+        }
+        Op::Out(j) => {
+            if st.m.outputs.iter().filter(|x| **x == j).count() >= 1 {
+                return false;
+            }
+            st.m.outputs.push(j);
+            true
+        }
+        Op::Cert(k) => {
+            if st.m.certs.contains(&k) {
+                return false;
+            }
+            let c = &w.certs[k];
+            let r = match c.script {
+                None => st.certs.add(&c.cert),
+                Some(s) => {
+                    // script credentials of the certificate alphabet are sh(0..2): witness with a
+                    // native script (the builder does not check the hash) or a Plutus one for sh(2)
+                    if s == 2 {
+                        st.certs.add_with_plutus_witness(&c.cert, &plutus_witness(w, 1, 0, RedeemerTag::new_cert(), 200 + k as u64, None))
+                    } else {
+                        st.certs.add_with_native_script(&c.cert, &NativeScriptSource::new(&w.native[0]))
+                    }
+                }
+            };
+            if r.is_err() {
+                return false;
+            }
+            st.m.certs.push(k);
+            true
+        }
+        Op::Wd(i) => {
+            if st.m.wds.contains(&i) {
+                return false;
+            }
+            let r = match i {
+                0 => st.wds.add(&reward_key(0), &bn(WD_AMOUNT[0])),
+                1 => st.wds.add_with_native_script(&RewardAddress::new(1, &Credential::from_scripthash(&w.native[0].hash())), &bn(WD_AMOUNT[1]), &NativeScriptSource::new(&w.native[0])),
+                2 => st.wds.add(&reward_key(2), &bn(WD_AMOUNT[2])),
+                _ => st.wds.add_with_plutus_witness(&RewardAddress::new(1, &Credential::from_scripthash(&w.plutus[1].hash())), &bn(WD_AMOUNT[3]), &plutus_witness(w, 1, 0, RedeemerTag::new_reward(), 300 + i as u64, None)),
+            };
+            if r.is_err() {
+                return false;
+            }
+            st.m.wds.push(i);
+            true
+        }
+        Op::Mint(i) => {
+            let native = MintWitness::new_native_script(&NativeScriptSource::new(&w.native[0]));
+            let (r, entries): (Result<(), JsError>, Vec<((usize, usize), i128)>) = match i {
+                0 => (st.mint.add_asset(&native, &w.names[1], &Int::new_i32(10)), vec![((0, 1), 10)]),
+                1 => (st.mint.add_asset(&native, &w.names[1], &Int::new_i32(-3)), vec![((0, 1), -3)]),
+                2 => {
+                    let red = redeemer_for(RedeemerTag::new_mint(), 400);
+                    let mw = MintWitness::new_plutus_script(&PlutusScriptSource::new(&w.plutus[1]), &red);
+                    (st.mint.add_asset(&mw, &w.names[0], &Int::new_i32(1)), vec![((1, 0), 1)])
+                }
+                _ => {
+                    let a = st.mint.add_asset(&native, &w.names[0], &Int::new_i32(5));
+                    let b = st.mint.add_asset(&native, &w.names[2], &Int::new_i32(-1));
+                    (a.and(b), vec![((0, 0), 5), ((0, 2), -1)])
+                }
+            };
+            if r.is_err() {
+                return false;
+            }
+            for (k, q) in entries {
+                *st.m.mint.entry(k).or_insert(0) += q;
+            }
+            // an entry that nets to zero makes the mint builder unusable (build() errors): prune
+            if st.m.mint.values().any(|q| *q == 0) {
+                return false;
+            }
+            true
+        }
+        Op::Proposal(i) => {
+            if st.m.proposals.contains(&i) {
+                return false;
+            }
+            if st.props.add(&proposal(i, 1_000_000 + i as u64)).is_err() {
+                return false;
+            }
+            st.m.proposals.push(i);
+            true
+        }
+        Op::Donate => {
+            if st.m.donation.is_some() {
+                return false;
+            }
+            st.m.donation = Some(1_500_000);
+            true
+        }
+        Op::Fee(i) => {
+            if st.m.fee_req.is_some() {
+                return false;
+            }
+            st.m.fee_req = Some(i);
+            true
+        }
+        Op::Coll(i) => {
+            if st.m.collateral.contains(&i) {
+                return false;
+            }
+            if st.cb.add_regular_utxo(&w.utxos[i].1).is_err() {
+                return false;
+            }
+            st.m.collateral.push(i);
+            true
+        }
+        Op::ReqSigner(k) => {
+            if st.m.req_signers.contains(&k) {
+                return false;
+            }
+            st.m.req_signers.push(k);
+            true
+        }
+        Op::RefIn(i) => {
+            if st.m.ref_inputs.contains(&i) {
+                return false;
+            }
+            st.m.ref_inputs.push(i);
+            true
+        }
+        Op::Vote(i) => {
+            if st.m.votes.contains(&i) {
+                return false;
+            }
+            let aid = GovernanceActionId::new(&txhash(0x33), 1);
+            let vp = VotingProcedure::new(VoteKind::Yes);
+            let r = match i {
+                0 => st.votes.add(&Voter::new_drep_credential(&cred_key(3)), &aid, &vp),
+                1 => st.votes.add(&Voter::new_constitutional_committee_hot_credential(&cred_key(1)), &aid, &vp),
+                2 => st.votes.add(&Voter::new_stake_pool_key_hash(&kh(2)), &aid, &vp),
+                3 => st.votes.add_with_native_script(&Voter::new_constitutional_committee_hot_credential(&Credential::from_scripthash(&w.native[0].hash())), &aid, &vp, &NativeScriptSource::new(&w.native[0])),
+                _ => st.votes.add_with_plutus_witness(&Voter::new_drep_credential(&Credential::from_scripthash(&w.plutus[2].hash())), &aid, &vp, &plutus_witness(w, 2, 0, RedeemerTag::new_vote(), 500 + i as u64, None)),
+            };
+            if r.is_err() {
+                return false;
+            }
+            st.m.votes.push(i);
+            true
+        }
+        Op::Meta => {
+            if st.m.meta {
+                return false;
+            }
+            st.m.meta = true;
+            true
+        }
+        Op::ExtraDatum(i) => {
+            if st.m.extra_datums.contains(&i) {
+                return false;
+            }
+            st.m.extra_datums.push(i);
+            true
+        }
+    }
+}
+
+// ---------------------------------------------------------------------------------------------
+// configurations and balancing methods
+
+pub fn config(i: usize) -> (&'static str, Params) {
+    let mut p = Params::mainnet();
+    let name = match i {
+        0 => "default",
+        1 => {
+            p.prefer_pure_change = true;
+            "prefer_pure_change"
+        }
+        2 => {
+            p.max_value_size = 70;
+            "max_value_size=70"
+        }
+        3 => {
+            p.coins_per_byte = 1;
+            "coins_per_byte=1"
+        }
+        4 => {
+            p.do_not_burn = true;
+            "do_not_burn_extra_change"
+        }
+        _ => {
+            p.dedup_ref_inputs = true;
+            "deduplicate_explicit_ref_inputs"
+        }
+    };
+    (name, p)
+}
+
+#[derive(Clone, Copy, Debug, PartialEq)]
+pub enum Method {
+    Change,
+    ChangeWithDatum,
+    SelectThenChange(u8),
+    SelectAndChange(u8),
+    SelectAndChangeWithCollateralReturn(u8),
+}
+
+pub fn strategy(i: u8) -> CoinSelectionStrategyCIP2 {
+    match i {
+        0 => CoinSelectionStrategyCIP2::LargestFirst,
+        1 => CoinSelectionStrategyCIP2::RandomImprove,
+        2 => CoinSelectionStrategyCIP2::LargestFirstMultiAsset,
+        _ => CoinSelectionStrategyCIP2::RandomImproveMultiAsset,
+    }
+}
+
+pub struct Finish {
+    pub tb: TransactionBuilder,
+    pub setup_err: Option<String>,
+    pub balance: Option<Result<bool, String>>,
+    pub tx: Option<Result<Transaction, String>>,
+    pub offered: Vec<usize>,
+}
+
+/// Build a TransactionBuilder for state `st` under `params` (no balancing yet).
+pub fn setup(w: &World, st: &St, params: &Params) -> Result<TransactionBuilder, String> {
+    let mut tb = TransactionBuilder::new(&params.config());
+    tb.set_inputs(&st.ib);
+    tb.set_collateral(&st.cb);
+    for j in &st.m.outputs {
+        tb.add_output(&w.outputs[*j]).map_err(|e| format!("add_output#{}: {:?}", j, e))?;
+    }
+    if !st.m.certs.is_empty() {
+        tb.set_certs_builder(&st.certs);
+    }
+    if !st.m.wds.is_empty() {
+        tb.set_withdrawals_builder(&st.wds);
+    }
+    if !st.m.mint.is_empty() {
+        tb.set_mint_builder(&st.mint);
+    }
+    if !st.m.votes.is_empty() {
+        tb.set_voting_builder(&st.votes);
+    }
+    if !st.m.proposals.is_empty() {
+        tb.set_voting_proposal_builder(&st.props);
+    }
+    if let Some(d) = st.m.donation {
+        tb.set_donation(&bn(d));
+    }
+    match st.m.fee_req {
+        Some(0) => tb.set_fee(&bn(200_000)),
+        Some(1) => tb.set_fee(&bn(2_000_000)),
+        Some(2) => tb.set_min_fee(&bn(100)),
+        Some(_) => tb.set_min_fee(&bn(900_000)),
+        None => {}
+    }
+    for k in &st.m.req_signers {
+        tb.add_required_signer(&kh(*k));
+    }
+    for r in &st.m.ref_inputs {
+        match r {
+            0 => tb.add_reference_input(&op_outpoint(13)),
+            1 => tb.add_script_reference_input(&op_outpoint(14), 30_000),
+            _ => tb.add_reference_input(&op_outpoint(0)),
+        }
+    }
+    if st.m.meta {
+        let mut md = GeneralTransactionMetadata::new();
+        md.insert(&bn(674), &TransactionMetadatum::new_text("hello".into()).unwrap());
+        tb.set_metadata(&md);
+    }
+    for d in &st.m.extra_datums {
+        tb.add_extra_witness_datum(&w.datums[*d]);
+    }
+    Ok(tb)
+}
+
+pub fn fee_request_value(i: usize) -> (bool, u64) {
+    match i {
+        0 => (true, 200_000),
+        1 => (true, 2_000_000),
+        2 => (false, 100),
+        _ => (false, 900_000),
+    }
+}
+
+pub fn has_plutus(w: &World, st: &St) -> bool {
+    st.m.inputs.iter().any(|(i, _)| matches!(w.utxos[*i].0.owner, Owner::Plutus(_)))
+        || st.m.mint.keys().any(|k| k.0 == 1)
+        || st.m.wds.contains(&3)
+        || st.m.votes.contains(&4)
+        || st.m.certs.iter().any(|k| w.certs[*k].script == Some(2))
+}
+
+/// The finish procedure: script data hash, balancing, script data hash again, build.
+pub fn finish(w: &World, st: &St, params: &Params, method: Method, ctx: &mut Ctx, rng_free: bool) -> Finish {
+    let mut out = Finish { tb: TransactionBuilder::new(&params.config()), setup_err: None, balance: None, tx: None, offered: vec![] };
+    let tb = match guard(|| setup(w, st, params)) {
+        Ok(Ok(tb)) => tb,
+        Ok(Err(e)) => {
+            out.setup_err = Some(e);
+            return out;
+        }
+        Err(p) => {
+            out.setup_err = Some(format!("PANIC {}:{} {}", p.file, p.line, p.msg));
+            return out;
+        }
+    };
+    out.tb = tb;
+    let plutus = has_plutus(w, st) || !st.m.extra_datums.is_empty();
+    if plutus {
+        if let Err(e) = out.tb.calc_script_data_hash(&w.cost_models) {
+            out.setup_err = Some(format!("calc_script_data_hash: {:?}", e));
+            return out;
+        }
+    }
+    // offered pool for selection: key-owned UTxOs not already inputs or collateral
+    let mut pool = TransactionUnspentOutputs::new();
+    for (i, (spec, u)) in w.utxos.iter().enumerate() {
+        if matches!(spec.owner, Owner::Key(_)) && !st.m.inputs.iter().any(|x| x.0 == i) && !st.m.collateral.contains(&i) {
+            pool.add(u);
+            out.offered.push(i);
+        }
+    }
+    let change = w.change.clone();
+    let cc = ChangeConfig::new(&change);
+    let tbm = &mut out.tb;
+    let res: Result<Result<bool, JsError>, crate::engine::PanicRec> = match method {
+        Method::Change => guard(|| tbm.add_change_if_needed(&change)),
+        Method::ChangeWithDatum => guard(|| tbm.add_change_if_needed_with_datum(&change, &OutputDatum::new_data_hash(&DataHash::from_bytes(hash32(0xcd)).unwrap()))),
+        Method::SelectThenChange(s) => {
+            let r = with_rng(ctx, rng_free, || guard(|| tbm.add_inputs_from(&pool, strategy(s))));
+            match r {
+                Ok(Ok(())) => {
+                    if plutus {
+                        let _ = tbm.calc_script_data_hash(&w.cost_models);
+                    }
+                    guard(|| tbm.add_change_if_needed(&change))
+                }
+                Ok(Err(e)) => Ok(Err(e)),
+                Err(p) => Err(p),
+            }
+        }
+        Method::SelectAndChange(s) => with_rng(ctx, rng_free, || guard(|| tbm.add_inputs_from_and_change(&pool, strategy(s), &cc))),
+        Method::SelectAndChangeWithCollateralReturn(s) => with_rng(ctx, rng_free, || guard(|| tbm.add_inputs_from_and_change_with_collateral_return(&pool, strategy(s), &cc, &bn(150)).map(|_| true))),
+    };
+    match res {
+        Err(p) => {
+            out.balance = Some(Err(format!("PANIC {}:{} {}", p.file, p.line, p.msg)));
+            return out;
+        }
+        Ok(Err(e)) => {
+            out.balance = Some(Err(format!("{:?}", e)));
+            return out;
+        }
+        Ok(Ok(b)) => out.balance = Some(Ok(b)),
+    }
+    if plutus {
+        // inputs may have been added by the selection: recompute (precondition of C09)
+        let _ = out.tb.calc_script_data_hash(&w.cost_models);
+    }
+    let tbr = &out.tb;
+    out.tx = Some(match guard(|| tbr.build_tx()) {
+        Ok(Ok(tx)) => Ok(tx),
+        Ok(Err(e)) => Err(format!("{:?}", e)),
+        Err(p) => Err(format!("PANIC {}:{} {}", p.file, p.line, p.msg)),
+    });
+    out
+}
+
+// ---------------------------------------------------------------------------------------------
+// what the ledger needs signed (witsVKeyNeeded) for a parsed transaction of this world
+
+pub struct Needed {
+    pub keys: BTreeSet<Vec<u8>>,
+    pub byron: BTreeSet<Vec<u8>>,
+}
+
+pub fn needed_signers(w: &World, st: &St, t: &PTx) -> Result<Needed, String> {
+    let mut n = Needed { keys: BTreeSet::new(), byron: BTreeSet::new() };
+    let mut native_in_use: Vec<usize> = vec![];
+    for op in t.inputs.iter().chain(t.collateral.iter()) {
+        let i = w.lookup(op).ok_or(format!("outpoint {}#{} not in the table", hx(&op.0[..4]), op.1))?;
+        match &w.utxos[i].0.owner {
+            Owner::Key(k) => {
+                n.keys.insert(kh_bytes(*k));
+            }
+            Owner::Byron(_) => {
+                n.byron.insert(w.utxos[i].1.output().address().to_bytes());
+            }
+            Owner::Native(s) => native_in_use.push(*s),
+            Owner::Plutus(_) => {}
+        }
+    }
+    for (ra, _) in &t.withdrawals {
+        if ra[0] & 0x10 == 0 {
+            n.keys.insert(ra[1..].to_vec());
+        }
+    }
+    for c in &t.certs {
+        for k in ledger::cert_signers(c) {
+            n.keys.insert(k);
+        }
+    }
+    for (kind, h) in &t.voters {
+        if matches!(kind, 0 | 2 | 4) {
+            n.keys.insert(h.clone());
+        }
+    }
+    for k in &t.required_signers {
+        n.keys.insert(k.clone());
+    }
+    // native scripts in use: those in the witness set, and those used by reference
+    for s in &t.native_scripts {
+        for k in ledger::native_script_keys(s) {
+            n.keys.insert(k);
+        }
+    }
+    for (i, variant) in &st.m.inputs {
+        if let Owner::Native(s) = &w.utxos[*i].0.owner {
+            if *variant == 1 {
+                for k in ledger::native_script_keys(&w.native[*s].to_bytes()) {
+                    n.keys.insert(k);
+                }
+            }
+        }
+    }
+    let _ = native_in_use;
+    Ok(n)
+}
+
+/// total size of reference scripts the ledger charges for: distinct outpoints among inputs and
+/// reference inputs that hold a script (sizes as declared by the scenario's table)
+pub fn ref_script_total(t: &PTx) -> u64 {
+    let mut seen: BTreeSet<(Vec<u8>, u64)> = BTreeSet::new();
+    let mut total = 0u64;
+    for op in t.inputs.iter().chain(t.reference_inputs.iter()) {
+        if !seen.insert(op.clone()) {
+            continue;
+        }
+        if *op == op_outpoint_key(REF_SCRIPT_OUTPOINT) {
+            total += REF_SCRIPT_SIZE as u64;
+        } else if *op == op_outpoint_key(REF_SCRIPT_OUTPOINT + 1) {
+            total += 40;
+        } else if *op == op_outpoint_key(14) {
+            total += 30_000;
+        }
+    }
+    total
+}
+
+pub fn fee_params(p: &Params) -> FeeParams {
+    FeeParams { a: p.fee_a, b: p.fee_b, price_mem: p.ex_prices.map(|x| x.0).unwrap_or((0, 1)), price_steps: p.ex_prices.map(|x| x.1).unwrap_or((0, 1)), ref_price: p.ref_script_price.unwrap_or((0, 1)) }
+}
+
+// ---------------------------------------------------------------------------------------------
+// per-property op alphabets
+
+pub fn ops_for(prop: &str) -> Vec<Op> {
+    match prop {
+        "C05" | "C06" | "C07" | "C03" => vec![
+            Op::In(0, 0), Op::In(1, 0), Op::In(2, 0), Op::In(3, 0), Op::In(4, 0), Op::In(5, 0), Op::In(6, 0), Op::In(9, 0),
+            Op::Out(0), Op::Out(1), Op::Out(2), Op::Out(3), Op::Out(4),
+            Op::Cert(0), Op::Cert(1), Op::Cert(2), Op::Cert(3), Op::Cert(7), Op::Cert(8), Op::Cert(13), Op::Cert(15), Op::Cert(20),
+            Op::Wd(0), Op::Wd(2), Op::Mint(0), Op::Mint(1), Op::Mint(3), Op::Proposal(0), Op::Donate,
+            Op::Fee(0), Op::Fee(1), Op::Fee(2), Op::Fee(3), Op::Coll(1), Op::Meta,
+        ],
+        "C18" | "C16" => vec![
+            Op::In(0, 0), Op::In(2, 0), Op::In(1, 0), Op::In(5, 0), Op::In(6, 0), Op::In(6, 1), Op::In(10, 0), Op::In(7, 0), Op::In(7, 1), Op::In(11, 0), Op::In(8, 0),
+            Op::Out(0), Op::Coll(1), Op::Coll(0), Op::Cert(5), Op::Cert(7), Op::Cert(8), Op::Cert(6), Op::Cert(13), Op::Cert(25),
+            Op::Wd(0), Op::Wd(1), Op::Wd(3), Op::Vote(0), Op::Vote(1), Op::Vote(2), Op::Vote(3), Op::Vote(4),
+            Op::Mint(0), Op::Mint(2), Op::ReqSigner(3), Op::ReqSigner(0), Op::RefIn(0), Op::RefIn(1), Op::RefIn(2), Op::ExtraDatum(0), Op::ExtraDatum(1), Op::Meta,
+        ],
+        "C09" | "C10" => vec![
+            Op::In(0, 0), Op::In(7, 0), Op::In(7, 1), Op::In(8, 0), Op::In(11, 0), Op::In(6, 0), Op::In(2, 0),
+            Op::Mint(0), Op::Mint(2), Op::Cert(25), Op::Cert(5), Op::Cert(26), Op::Cert(16), Op::Wd(0), Op::Wd(1), Op::Wd(3), Op::Vote(1), Op::Vote(3), Op::Vote(4),
+            Op::ExtraDatum(0), Op::ExtraDatum(1), Op::ExtraDatum(2), Op::Meta, Op::Out(0),
+        ],
+        _ => vec![],
+    }
+}
+
+pub fn methods_for(prop: &str, tier: Tier) -> Vec<Method> {
+    match prop {
+        "C05" | "C06" | "C07" | "C03" => {
+            let mut v = vec![Method::Change, Method::SelectThenChange(0), Method::SelectAndChange(1), Method::SelectAndChange(2), Method::SelectAndChangeWithCollateralReturn(0)];
+            if tier.thorough() {
+                v.extend([Method::ChangeWithDatum, Method::SelectAndChange(0), Method::SelectAndChange(3), Method::SelectThenChange(3)]);
+            }
+            v
+        }
+        _ => vec![Method::Change, Method::SelectAndChange(0)],
+    }
+}
+
+pub fn configs_for(prop: &str, tier: Tier) -> Vec<usize> {
+    match prop {
+        "C05" | "C06" | "C07" | "C03" => {
+            if tier.thorough() {
+                vec![0, 1, 2, 3, 4]
+            } else {
+                vec![0, 1, 2, 3]
+            }
+        }
+        "C18" | "C16" => vec![0, 5],
+        _ => vec![0],
+    }
+}
+
+pub fn depth_for(prop: &str, tier: Tier) -> usize {
+    match (prop, tier.thorough()) {
+        ("C05", false) | ("C06", false) | ("C07", false) | ("C03", false) => 3,
+        ("C05", true) | ("C06", true) | ("C07", true) | ("C03", true) => 4,
+        ("C18", false) | ("C16", false) => 4,
+        ("C18", true) | ("C16", true) => 5,
+        (_, false) => 5,
+        (_, true) => 6,
+    }
+}
+
+// ---------------------------------------------------------------------------------------------
+// the scenario
+
+pub fn replay_history(w: &World, ctx: &mut Ctx, ops: &[Op], base: &[Op]) -> Option<(St, Vec<Op>)> {
+    let mut st = St::new();
+    let mut hist = Vec::new();
+    for op in base {
+        if !apply(w, &mut st, *op) {
+            crate::engine::machinery("base operation not applicable");
+        }
+    }
+    while let Some(i) = ctx.next_op(ops.len()) {
+        let op = ops[i];
+        let ok = guard(|| apply(w, &mut st, op));
+        match ok {
+            Ok(true) => hist.push(op),
+            Ok(false) => {
+                ctx.prune();
+                return None;
+            }
+            Err(p) => {
+                ctx.violation(panic_sig("C05", &format!("builder op {:?}", op), &p), p.msg.clone());
+                ctx.prune();
+                return None;
+            }
+        }
+    }
+    Some((st, hist))
+}
+
+/// Debug rendering without the `dedup: {..}` hash sets (membership indexes of the set types:
+/// std HashSets whose iteration order is random and which carry no information of their own)
+fn strip_dedup(s: &str) -> String {
+    let mut out = String::with_capacity(s.len());
+    let b = s.as_bytes();
+    let mut i = 0;
+    let pat = b"dedup: {";
+    while i < b.len() {
+        if b[i..].starts_with(pat) {
+            let mut depth = 1;
+            let mut j = i + pat.len();
+            while j < b.len() && depth > 0 {
+                match b[j] {
+                    b'{' => depth += 1,
+                    b'}' => depth -= 1,
+                    _ => {}
+                }
+                j += 1;
+            }
+            out.push_str("dedup: _");
+            i = j;
+        } else {
+            out.push(b[i] as char);
+            i += 1;
+        }
+    }
+    out
+}
+
+pub fn state_key(st: &St) -> u128 {
+    let s = format!("{:?}|{:?}|{:?}|{:?}|{:?}|{:?}|{:?}|{:?}", st.ib, st.cb, st.certs, st.wds, st.mint, st.votes, st.props, st.m);
+    key128(strip_dedup(&s).as_bytes())
+}
+
+pub fn builder_scenario(prop: &'static str, tier: Tier) -> BoxedScenario {
+    let ops = ops_for(prop);
+    let methods = methods_for(prop, tier);
+    let configs = configs_for(prop, tier);
+    Box::new(move |ctx: &mut Ctx| {
+        WORLD.with(|w| {
+            // Plutus items only build with collateral: for the pointer / hash properties it is
+            // part of the initial state rather than an operation
+            let base: &[Op] = if prop == "C09" || prop == "C10" { &[Op::Coll(1)] } else { &[] };
+            let (st, hist) = match replay_history(w, ctx, &ops, base) {
+                Some(x) => x,
+                None => return,
+            };
+            if ctx.state_key(state_key(&st)) {
+                return;
+            }
+            let mi = ctx.choose_free(methods.len());
+            let ci = ctx.choose_free(configs.len());
+            let method = methods[mi];
+            let (cname, params) = config(configs[ci]);
+            ctx.set_sample(|| format!("history {:?} ; finish {:?} under {}", hist, method, cname));
+            ctx.observe(&(format!("{:?}", hist), mi, ci));
+            let fin = finish(w, &st, &params, method, ctx, false);
+            crate::props::builder_oracles::judge(prop, ctx, w, &st, &hist, &params, cname, method, &fin);
+        })
+    })
+}
+
+pub fn scenario_for(prop: &str, name: &str, tier: Tier) -> Option<BoxedScenario> {
+    let stat: &'static str = match prop {
+        "C03" => "C03",
+        "C05" => "C05",
+        "C06" => "C06",
+        "C07" => "C07",
+        "C09" => "C09",
+        "C10" => "C10",
+        "C16" => "C16",
+        "C18" => "C18",
+        _ => return None,
+    };
+    if name == "builder" {
+        Some(builder_scenario(stat, tier))
+    } else {
+        None
+    }
+}
+
+pub fn explore_for(prop: &str, tier: Tier, seed: u64, rep: &mut Report) {
+    let f = match scenario_for(prop, "builder", tier) {
+        Some(f) => f,
+        None => return,
+    };
+    let ops = ops_for(prop);
+    let depth = depth_for(prop, tier);
+    // RNG answers: at most one deviation from the default answer per finish (C08 explores them all)
+    let opts = Opts::new(seed).bound(1);
+    let st = bfs("builder", &*f, ops.len(), depth, &opts);
+    rep.bound("builder_ops", serde_json::json!(ops.iter().map(op_name).collect::<Vec<_>>()));
+    rep.bound("builder_history_depth", serde_json::json!(depth));
+    rep.bound("builder_methods", serde_json::json!(methods_for(prop, tier).iter().map(|m| format!("{:?}", m)).collect::<Vec<_>>()));
+    rep.bound("builder_configs", serde_json::json!(configs_for(prop, tier).iter().map(|c| config(*c).0).collect::<Vec<_>>()));
+    rep.add("builder (BFS over operation histories)", &format!("all histories to depth {} with canonical-state dedup; every (method x config) in every state; RNG <= 1 deviation", depth), st);
+}
